@@ -263,8 +263,12 @@ func runCheck(prop, tierName, repoDir, verifDir string, workers int, only string
 		}
 		confN, confFail = conformance(p, hs, n, seed)
 		if confFail != "" {
+			// decided after the counterexamples are classified: a tree that
+			// breaks the property may well behave differently natively (state
+			// carried from one case to the next in the native process); a
+			// confirmed counterexample then is the verdict, else the check is
+			// broken (exit 2)
 			fmt.Fprintln(os.Stderr, "gosym: conformance failure (interpreter and native build disagree):", confFail)
-			return 2
 		}
 	}
 
@@ -326,6 +330,9 @@ func runCheck(prop, tierName, repoDir, verifDir string, workers int, only string
 		fmt.Printf("VIOLATION property=%s replay=%s\n", prop, f.file)
 		fmt.Printf("  harness=%s kind=%s label=%s %s %s\n", f.v.Harness, f.v.Kind, f.v.Label, f.v.Detail, f.outcome.Detail)
 		exit = 1
+	}
+	if confFail != "" && exit == 0 {
+		return 2
 	}
 	for _, f := range unconfirmed {
 		fmt.Fprintf(os.Stderr, "warning: unconfirmed counterexample (does not replay natively): %s %s %s: %s (%s)\n",
